@@ -5,7 +5,7 @@ message is read by an independent reader (xml.etree/expat) and compared (a) with
 oracle: the Appendix-F schema of the operation and path assertions for every caller string / fragment."""
 import json, os, glob
 ID = 'C07'
-COQ_ROOTS = ['Props/C07.v']
+COQ_ROOTS = ['Props/C07.v', 'GenProps/Caps_consts.v', 'GenProps/Gating_consts.v', 'GenProps/Builders_consts.v', 'GenProps/Vendor_consts.v']
 RULE = ('case = (device profile, operation, argument record). Operations: the 19 standard Manager methods; all 14 profiles. '
         'Strings from a piece grammar (ASCII, 2/3/4-byte UTF-8, < > & " \' CR LF TAB, ]]>, entity look-alikes, comment/PI/CDATA '
         'openers, U+2028, DEL, C1, up to 20k characters); XML fragments generated as trees (namespaced, prefixed, un-namespaced, '
